@@ -1056,9 +1056,11 @@ fn respond(line: &str) -> R {
                 Some(trait_) => ser_trait_items(trait_).unwrap_or_else(|err| leaf("Unsupported", &err)),
             };
             let mut helpers = Vec::new();
+            let mut helper_items = Vec::new();
             for (idx, group) in groups.impl_groups.values().enumerate() {
                 let helper = helper_trait::generate(main_trait.as_ref(), idx, group).ok_or("no helper trait")?;
                 helpers.push(ser_trait_header(&helper)?);
+                helper_items.push(ser_trait_items(&helper).unwrap_or_else(|err| leaf("Unsupported", &err)));
             }
             Ok(join(vec![
                 trait_ser,
@@ -1068,6 +1070,7 @@ fn respond(line: &str) -> R {
                 node("HelperTraits", "", helpers),
                 node("MainItems", "", main_items),
                 trait_items,
+                node("HelperItems", "", helper_items),
             ]))
         }
         // serialize a world (ground impls of dispatch traits) and ground queries
